@@ -16,6 +16,7 @@ type recordedWrite struct {
 	key  string
 	idx  Term
 	contract bool
+	whole bool // idx designates a whole object (append/copy/sort), not one cell
 }
 
 func (u *Unit) recordWrite(fr *Frame, addr ssa.Value, key string, idx Term) {
@@ -30,7 +31,7 @@ func (u *Unit) recordWriteTerm(fr *Frame, key string, base Term, argVal ssa.Valu
 	if u.rec == nil {
 		return
 	}
-	u.rec.writes = append(u.rec.writes, recordedWrite{fr: fr, addr: argVal, key: key, idx: base})
+	u.rec.writes = append(u.rec.writes, recordedWrite{fr: fr, addr: argVal, key: key, idx: base, whole: true})
 }
 
 func (u *Unit) recordWriteContract(fr *Frame, key string) {
@@ -45,6 +46,19 @@ func (rec *writeRecorder) classify(u *Unit, modKeys map[string]bool) {
 	for _, wr := range rec.writes {
 		if wr.contract || wr.addr == nil {
 			rec.eff.variant[wr.key] = true
+			continue
+		}
+		if !wr.whole && rec.invariantValue(u, wr.fr, wr.addr, modKeys, 0) && termIsOlderThan(wr.idx, rec.mark) {
+			// the very cell is the same in every iteration
+			dup := false
+			for _, x := range rec.eff.writtenLoc[wr.key] {
+				if x.S == wr.idx.S {
+					dup = true
+				}
+			}
+			if !dup {
+				rec.eff.writtenLoc[wr.key] = append(rec.eff.writtenLoc[wr.key], wr.idx)
+			}
 			continue
 		}
 		if rec.invariantValue(u, wr.fr, rootOf(wr.addr), modKeys, 0) {
